@@ -66,6 +66,9 @@ def quick_grids(seed=0):
       dict(M=2, L=3, nlon=6, nlat=6, spacing='equiangular_with_poles', impl='fast', base=4, stacked=True),
       dict(M=4, L=6, nlon=9, nlat=7, spacing='gauss', impl='fast', base=1, stacked=False, reverse=True),
       dict(M=1, L=2, nlon=4, nlat=3),
+      with_wavenumbers(3, 'quadratic', radius=6.371e6),          # dimensional radius (metres)
+      dict(M=3, L=5, nlon=8, nlat=6, impl='fast', radius=2.0e4, base=2),
+      with_wavenumbers(2, 'quadratic', radius=1e-3),
   ]
   rng = np.random.default_rng(seed)
   M = int(rng.integers(2, 6)); L = M + int(rng.integers(0, 3))
